@@ -171,6 +171,17 @@ Theorem C04_rejected_no_effect :
 Proof. split; [exact rejected_step | split; [exact run_rejected | split; [exact exec_query_fail | exact exec_readonly]]]. Qed.
 Print Assumptions C04_rejected_no_effect.
 
+(* ---- refinement, for every statement and every SEQUENCE of statements: seen as a map name -> set of triples
+   (Spec.abs), the store after a statement is the store before it changed by exactly `effect_of` (Spec.v): nothing for a
+   rejected / failing-query / read-only statement; union resp. difference of the listed triples in the named graphs
+   that exist (INSERT, DELETE); of the triples the template yields for the rows in the output graphs (CONSTRUCT,
+   DECONSTRUCT); the named graphs added empty / removed (CREATE, DROP); every other graph the same set as before ---- *)
+Theorem C04_refines_spec :
+  (forall bulk st s, apply_effect (effect_of st s) (abs st) (abs (step bulk st s))) /\
+  (forall bulk ss st, follows bulk st ss (run bulk st ss)).
+Proof. split; [exact step_has_effect | exact run_follows]. Qed.
+Print Assumptions C04_refines_spec.
+
 (* ---- the store stays a map from distinct names to duplicate-free triple lists, along any statement sequence ---- *)
 Theorem C04_wellformed : forall bulk ss st, WF st -> WF (run bulk st ss).
 Proof. exact run_WF. Qed.
